@@ -16,7 +16,13 @@ import (
 // Symbolically emitFrame is the recording model of H15b (the framer and HPACK are third-party code): what is
 // checked is what it is handed. Natively the real framer and HPACK decoder run on a real request whose header
 // block is really split, on a server-side connection (client preface first).
-func H15k_q() {
+func H15k_q() { h15k(1) }
+
+// H15k3: a header block of three frames (HEADERS, CONTINUATION without END_HEADERS, CONTINUATION with it).
+func H15k3_q() { h15k(2) }
+
+func h15k(nCont int) {
+	total := 10 + 10*nCont
 	split := vBool("split") // the HEADERS frame lacks END_HEADERS and a CONTINUATION follows
 	var stream []byte
 	var first int // length of the first frame
@@ -33,7 +39,12 @@ func H15k_q() {
 		if split {
 			fr.WriteHeaders(http2.HeadersFrameParam{StreamID: 1, BlockFragment: block[:5], EndHeaders: false})
 			first = out.Len()
-			fr.WriteContinuation(1, true, block[5:])
+			if nCont == 2 {
+				fr.WriteContinuation(1, false, block[5:10])
+				fr.WriteContinuation(1, true, block[10:])
+			} else {
+				fr.WriteContinuation(1, true, block[5:])
+			}
 		} else {
 			fr.WriteHeaders(http2.HeadersFrameParam{StreamID: 1, BlockFragment: block, EndHeaders: true})
 			first = out.Len()
@@ -50,15 +61,20 @@ func H15k_q() {
 			flags0 = 0x4 // END_HEADERS
 		}
 		stream = []byte{0, 0, 1, 0x1, flags0, 0, 0, 0, 1, vByte("p0"), 0, 0, 1, type1, flags1, 0, 0, 0, 1, vByte("p1")}
+		if nCont == 2 {
+			// the middle frame: a CONTINUATION without END_HEADERS when the block is split, any other frame otherwise
+			mid := []byte{0, 0, 1, type1, 0, 0, 0, 0, 1, vByte("pm")}
+			stream = append(append(append([]byte{}, stream[:10]...), mid...), stream[10:]...)
+		}
 		first = 10
 	}
 	rec := &vTraceRec{}
 	c := &tracingHTTP2Conn{Conn: &vConn{}, isServer: vNative(), collector: &http2RetryCollector{collector: rec}}
 	c.readTracer = http2FrameTracer{c: c, isRequest: vNative(), decoder: hpack.NewDecoder(4096, nil)}
 	h := &c.readTracer
-	cut := vInt("cut", 0, 20) // the bytes arrive in two reads: stream[:cut], stream[cut:]
+	cut := vInt("cut", 0, total) // the bytes arrive in two reads: stream[:cut], stream[cut:]
 	if vNative() {
-		cut = cut * len(stream) / 20
+		cut = cut * len(stream) / total
 	}
 	vFrames = 0
 	h.trace(stream[:cut])
@@ -71,8 +87,8 @@ func H15k_q() {
 		return
 	}
 	if split {
-		vAssert(vFrames == 1 && vEmitLens[0] == 20, "a HEADERS frame without END_HEADERS is handed to the framer together with its CONTINUATION")
+		vAssert(vFrames == 1 && vEmitLens[0] == total, "a HEADERS frame without END_HEADERS is handed to the framer together with all its CONTINUATION frames")
 	} else {
-		vAssert(vFrames == 2 && vEmitLens[0] == first && vEmitLens[1] == 10, "complete frames are handed to the framer one by one")
+		vAssert(vFrames == 1+nCont && vEmitLens[0] == first && vEmitLens[1] == 10, "complete frames are handed to the framer one by one")
 	}
 }
